@@ -22,6 +22,8 @@ pub enum Val {
     Unit,
     Any,
     List(Vec<Val>),
+    /// a closure value with its captured environment
+    Closure(Box<syn::ExprClosure>, Box<Env>),
     /// result of something the evaluator does not model; an error only if a decision depends on it
     Opaque(String),
 }
@@ -67,6 +69,7 @@ impl Val {
             Val::Any => "_".into(),
             Val::List(l) => format!("[{}]", l.iter().map(|v| v.show()).collect::<Vec<_>>().join(",")),
             Val::Opaque(s) => format!("<opaque {}>", s),
+            Val::Closure(..) => "<closure>".into(),
         }
     }
 }
@@ -455,6 +458,40 @@ impl<'a> Evaluator<'a> {
             }
             "format_ident" | "format" => {
                 let args = crate::model::macro_args(m).ok_or("cannot parse macro args")?;
+                if let Some(syn::Expr::Lit(l)) = args.first() {
+                    if let syn::Lit::Str(tmpl) = &l.lit {
+                        let t = tmpl.value();
+                        if t.contains('{') {
+                            let mut out = String::new();
+                            let mut rest = t.as_str();
+                            let mut pos = 1;
+                            let mut ok = true;
+                            while let Some(i) = rest.find('{') {
+                                out.push_str(&rest[..i]);
+                                let j = match rest[i..].find('}') { Some(j) => i + j, None => { ok = false; break } };
+                                let inner = &rest[i + 1..j];
+                                let v = if inner.is_empty() {
+                                    let r = args.get(pos).map(|a| self.eval(a, _env));
+                                    pos += 1;
+                                    match r { Some(Ok(v)) => v, _ => { ok = false; break } }
+                                } else if inner.chars().all(|c| c.is_alphanumeric() || c == '_') {
+                                    match _env.get(inner) { Some(v) => v.clone(), None => { ok = false; break } }
+                                } else { ok = false; break };
+                                match v {
+                                    Val::Str(s) | Val::Sym(s) => out.push_str(&s),
+                                    Val::Int { v, .. } => out.push_str(&v.to_string()),
+                                    Val::Char(c) => out.push(c),
+                                    _ => { ok = false; break }
+                                }
+                                rest = &rest[j + 1..];
+                            }
+                            if ok {
+                                out.push_str(rest);
+                                return Ok(if name == "format" { Val::Str(out) } else { Val::Sym(out) });
+                            }
+                        }
+                    }
+                }
                 if args.len() == 1 {
                     if let syn::Expr::Lit(l) = &args[0] {
                         if let syn::Lit::Str(s) = &l.lit {
@@ -734,6 +771,9 @@ impl<'a> Evaluator<'a> {
                 if let Some(r) = (self.call_hook)(self, &tok(&c.func), &args) {
                     return r;
                 }
+                if let Some(Val::Closure(cl, cenv)) = env.get(&name).cloned() {
+                    return self.apply_closure(&syn::Expr::Closure(*cl), &args, &cenv);
+                }
                 if let Some(tbl) = self.inline {
                     if let Some((params, body)) = tbl.get(&name) {
                         let mut e2 = Env::new();
@@ -986,6 +1026,32 @@ impl<'a> Evaluator<'a> {
                         _ => {}
                     }
                 }
+                {
+                    // hooks see every method call first (receiver + best-effort arguments)
+                    let mut hargs = vec![recv.clone()];
+                    for a in mc.args.iter() {
+                        if matches!(a, syn::Expr::Closure(_)) {
+                            hargs.push(Val::Opaque("closure".into()));
+                        } else {
+                            hargs.push(self.eval(a, env).unwrap_or(Val::Opaque("arg".into())));
+                        }
+                    }
+                    if let Some(r) = (self.call_hook)(self, &format!(".{}", name), &hargs) {
+                        return r;
+                    }
+                }
+                if let (Some(tbl), Val::Ctor(cn, _, _)) = (self.inline, &recv) {
+                    if cn != "Some" && cn != "None" && cn != "Ok" && cn != "Err" {
+                        if let Some((params, body)) = tbl.get(&format!(".{}", name)) {
+                            let mut e2 = Env::new();
+                            e2.insert("self".into(), recv.clone());
+                            for (pn, a) in params.iter().zip(mc.args.iter()) {
+                                e2.insert(pn.clone(), self.eval(a, env)?);
+                            }
+                            return self.eval_fn_body(body, &mut e2);
+                        }
+                    }
+                }
                 if let Val::Str(st) = &recv {
                     match name.as_str() {
                         "starts_with" | "ends_with" | "contains" => {
@@ -1040,6 +1106,11 @@ impl<'a> Evaluator<'a> {
                         }
                     }
                     "unwrap_or_default" if is_some => Ok(inner.unwrap()),
+                    "ok" if matches!(&recv, Val::Ctor(n, ..) if n == "Ok" || n == "Err") => match recv {
+                        Val::Ctor(n, p, _) if n == "Ok" => Ok(Val::some(p.into_iter().next().unwrap_or(Val::Unit))),
+                        _ => Ok(Val::none()),
+                    },
+                    "flatten" if is_some || is_none => Ok(if is_some { inner.unwrap() } else { Val::none() }),
                     "is_some_and" | "map_or" | "map" | "and_then" | "then" | "then_some" | "or" | "min" | "max" => {
                         self.eval_combinator(&name, recv, mc, env)
                     }
@@ -1055,7 +1126,7 @@ impl<'a> Evaluator<'a> {
                     }
                 }
             }
-            Expr::Closure(_) => Ok(Val::Sym("closure".into())),
+            Expr::Closure(cl) => Ok(Val::Closure(Box::new(cl.clone()), Box::new(env.clone()))),
             Expr::ForLoop(fl) => {
                 let it = self.eval(&fl.expr, env)?;
                 let items = match it {
@@ -1181,6 +1252,12 @@ impl<'a> Evaluator<'a> {
                     o => o,
                 })
             }
+            syn::Expr::Path(p) if p.path.segments.len() == 1 && matches!(env.get(&p.path.segments[0].ident.to_string()), Some(Val::Closure(..))) => {
+                if let Some(Val::Closure(cl, cenv)) = env.get(&p.path.segments[0].ident.to_string()).cloned() {
+                    return self.apply_closure(&syn::Expr::Closure(*cl), args, &cenv);
+                }
+                Err("closure value vanished".into())
+            }
             syn::Expr::Path(p) => {
                 // a fn item passed by path: ask the hook
                 let name = tok(p);
@@ -1268,6 +1345,26 @@ impl<'a> Evaluator<'a> {
             o => return Err(format!(".{}() on {}", name, o.show())),
         };
         match name {
+            "max" | "min" => {
+                // Option<T: Ord>: None < Some(_)
+                let o = self.eval(&mc.args[0], env)?;
+                let oi = match &o {
+                    Val::Ctor(n, p, _) if n == "Some" => Some(p.first().cloned().unwrap_or(Val::Unit)),
+                    Val::Ctor(n, _, _) if n == "None" => None,
+                    x => return Err(format!("Option::{}({})", name, x.show())),
+                };
+                let as_int = |v: &Val| match v { Val::Int { v, .. } => Ok(*v), x => Err(format!("Option::{} on non-integer {}", name, x.show())) };
+                Ok(match (inner, oi) {
+                    (None, None) => Val::none(),
+                    (Some(a), None) => if name == "max" { Val::some(a) } else { Val::none() },
+                    (None, Some(b)) => if name == "max" { Val::some(b) } else { Val::none() },
+                    (Some(a), Some(b)) => {
+                        let (x, y) = (as_int(&a)?, as_int(&b)?);
+                        let pick_a = if name == "max" { x >= y } else { x <= y };
+                        Val::some(if pick_a { a } else { b })
+                    }
+                })
+            }
             "is_some_and" => match inner {
                 Some(v) => self.apply_closure(&mc.args[0], &[v], env),
                 None => Ok(Val::Bool(false)),
